@@ -21,7 +21,7 @@ use prost::Message as _;
 use rusty_ulid::Ulid;
 use sha2::{Digest, Sha256};
 use sozu_command_lib::{
-    buffer::fixed::Buffer,
+    buffer::growable::Buffer,
     config::Config,
     logging,
     parser::parse_several_requests,
@@ -3134,6 +3134,15 @@ pub fn load_state(server: &mut Server, mut client: OptionalClient, path: &str) {
     let mut scatter_request_counter = 0usize;
 
     let status = loop {
+        // a full buffer without a complete record means the record is larger
+        // than the buffer: reclaim the consumed room, else grow
+        if buffer.available_space() == 0 {
+            buffer.shift();
+            if buffer.available_space() == 0 {
+                buffer.grow(buffer.capacity() * 2);
+            }
+        }
+
         let previous = buffer.available_data();
 
         match file.read(buffer.space()) {
